@@ -29,18 +29,22 @@ import webencodings
 
 PROP = "C06"
 
-VALID = ["utf-8", "UTF-8", "utf8", "windows-1252", "latin1", "ISO-8859-1", "iso-8859-2", "koi8-r", "KOI8-R", "shift_jis",
+VALID = ["csiso2022jp", "ISO-2022-JP", "utf-8", "UTF-8", "utf8", "windows-1252", "latin1", "ISO-8859-1", "iso-8859-2", "koi8-r", "KOI8-R", "shift_jis",
          "sjis", "euc-jp", "windows-1251", "cp1251", "iso-8859-15", "gbk", "gb2312", "big5", "euc-kr", "macintosh",
          "windows-1250", "iso-8859-7", "greek", "ibm866", "windows-874", "gb18030", "iso-2022-jp", "koi8-u", "us-ascii"]
 UTF16 = ["utf-16", "UTF-16", "utf-16le", "utf-16be", "UTF-16LE", "unicode", "ucs-2"]
-INVALID = ["bogus", "utf8x", "utf-32", "none", "x-nope", "utf 8", "latin-99"]
+INVALID = ["bogus", "utf8x", "utf-32", "none", "x-nope", "utf 8", "latin-99",
+           # differ from a valid label only by something a careless normalisation would fold away
+           "koi8-r\x0b", "utf-8\x1f", "windows-1252\x1c", "\x0bshift_jis", "Koi8-r\x0b", "iso-8859-2\x1d"]
+# only usable as *_encoding arguments (not ASCII)
+INVALID_ARG_ONLY = ["koi8-r\xa0", "\u212aoi8-r", "utf-8\u2003", "\u017fhift_jis"]
 BOMS = {"utf-8": codecs.BOM_UTF8, "utf-16le": codecs.BOM_UTF16_LE, "utf-16be": codecs.BOM_UTF16_BE}
 
 for _l in VALID + UTF16:
     assert webencodings.lookup(_l) is not None, _l
 for _l in UTF16:
     assert webencodings.lookup(_l).name in ("utf-16le", "utf-16be"), _l
-for _l in INVALID:
+for _l in INVALID + INVALID_ARG_ONLY:
     assert webencodings.lookup(_l) is None, _l
 for _l in VALID:
     assert webencodings.lookup(_l).name not in ("utf-16le", "utf-16be", "x-user-defined", "replacement")
@@ -59,6 +63,12 @@ FORMS = {
     "content_only": ('<meta content="text/html; charset=%s">', False),
     "name_content": ('<meta name=description content="charset=%s">', False),
     "refresh": ('<meta http-equiv=refresh content="0; charset=%s">', False),
+    # content first: the prescan holds the encoding as "pending" until it sees
+    # whether a content-type pragma follows
+    "refresh_rev": ('<meta content="3; url=http://x.example/?q=1&charset=%s" http-equiv="refresh">', False),
+    "content_then_name": ('<meta content="text/html; charset=%s" name=generator>', False),
+    "content_then_other_equiv": ("<meta content='text/html; charset=%s' http-equiv=X-UA-Compatible>", False),
+    "pragma_rev_uc": ('<META CONTENT="text/html; charset=%s" HTTP-EQUIV="CONTENT-TYPE">', True),
 }
 PLACES = {
     # name: (prefix, suffix, visibility)
@@ -71,10 +81,19 @@ PLACES = {
     "attr": ('<link title="', '">', "nobody"),
 }
 FILLERS = [" ", "\n", "<!DOCTYPE html>", "<html>", "<head>", "<link rel=x>", "<!--XXXX-->", "yyy", "\r\n"]
+# markup that depends on the decoder: ISO-2022 escape sequences are characters
+# under every other encoding and vanish under ISO-2022-JP, so the abandoned
+# first attempt and the second attempt of a restart see different markup
+# (quirks vs no-quirks doctype, different tag names, ...)
+ESC_FILLERS = ["<!DOCTYPE html\x1b(B>", "\x1b(B<!DOCTYPE html>", "<!DOCTYPE\x1b(B html>", "\x1b(B", "\x1b(J", "<html\x1b(B>", "<head\x1b(B>",
+               "<!DOCTYPE html PUBLIC \"\x1b(B-//W3C//DTD HTML 4.01 Transitional//EN\">"]
 BODY_PIECES = [b"caf\xe9", b"\xc3\xa9t\xc3\xa9", b"\x82\xa0\x82\xa2", b"\xa4\xa2\xa4\xa4", b"\xe2\x82\xac", b"\xf0\x9f\x98\x80",
                b"<p>", b"<b>x</b>", b"\r\n", b"\r", b"\xd0\x96", b"\x80", b"\xff", b"\xa0", b"&amp;", b"plain text ",
                b"<table><tr><td>\xe9</table>", b"\x81", b"\xe3\x81\x82", b"\xc0\xaf", b"\xed\xa0\x80", b"<!--\xe9-->",
-               b"<a title='\xfc'>", b"\x00", b"\x01", b"a\x00b\x00", b"\xfe\xff", b"<i>", b"</p>", b"\x8f\xa2\xb8", b"\x1b$B"]
+               b"<a title='\xfc'>", b"\x00", b"\x01", b"a\x00b\x00", b"\xfe\xff", b"<i>", b"</p>", b"\x8f\xa2\xb8", b"\x1b$B",
+               # observers of state the abandoned first attempt may have left behind
+               b"<p><table>", b"<p>q<table><tr><td>r</table>s", b"<form><form>x</form>", b"<b>bold<p>para", b"<frameset>", b"<table> </table>",
+               b"<pre>\nx</pre>", b"<select><option>o", b"</body>z"]
 
 
 # --------------------------------------------------------------------------
@@ -229,6 +248,8 @@ def _label(rng, kind=None):
 def _arg(rng, p_present):
     if rng.random() >= p_present:
         return None
+    if rng.random() < 0.08:
+        return rng.choice(INVALID_ARG_ONLY)
     return _label(rng)
 
 
@@ -316,6 +337,10 @@ def gen_doc(rng):
     args["default"] = _arg(rng, p)
     case["args"] = args
     parts = []
+    esc_doc = rng.random() < 0.1
+    if esc_doc:
+        for _ in range(rng.randint(1, 3)):
+            parts.append({"t": "fill", "s": rng.choice(ESC_FILLERS)})
     _fill(rng, parts, rng.randint(0, 4))
     n_decl = rng.choice([0, 1, 1, 1, 2, 2, 3])
     for di in range(n_decl):
@@ -335,7 +360,10 @@ def gen_doc(rng):
         place = rng.choice(["plain", "plain", "plain", "body", "comment", "title", "script", "style", "attr"])
         if place == "attr" and '"' in FORMS[form][0]:
             form = rng.choice(["charset", "charset_sq_uc", "charset_pad", "charset_extra"])
-        parts.append({"t": "decl", "form": form, "place": place, "label": _label(rng)})
+        label = _label(rng)
+        if esc_doc and rng.random() < 0.7:
+            label = rng.choice(["iso-2022-jp", "csiso2022jp", "ISO-2022-JP"])
+        parts.append({"t": "decl", "form": form, "place": place, "label": label})
         _fill(rng, parts, rng.randint(0, 3))
     body = b"".join(rng.choice(BODY_PIECES) for _ in range(rng.randint(1, 12)))
     if rng.random() < 0.1:
@@ -395,6 +423,14 @@ def gen_unit(rng, stream="main"):
 
 _builder = [None]
 _cache = {}
+
+
+def block_start():
+    """Defined process-wide state at the start of every block of units and of
+    every replay (see sim/coldstate.py)."""
+    from . import coldstate
+    coldstate.restore()
+    _cache.clear()
 
 
 def _tb():
